@@ -285,6 +285,7 @@ func (p *pkg) isValueFunc(c *ast.CallExpr, name string) bool {
 // ---- constructors of lib/value ------------------------------------------------------------------
 var pooledTypes = map[string]bool{} // struct types X for which a function getX() exists
 var ctorIDs = map[string]int{}
+var poolOf = map[string]string{} // getter name -> pool variable
 
 func isCtorName(n string) bool {
 	return (strings.HasPrefix(n, "New") || strings.HasPrefix(n, "To")) && len(n) > 3
@@ -304,6 +305,7 @@ func analyseCtors(p *pkg, facts *Facts) {
 							if c, ok := ta.X.(*ast.CallExpr); ok {
 								if se, ok := c.Fun.(*ast.SelectorExpr); ok && se.Sel.Name == "Get" {
 									getters[d.Name.Name] = true
+									poolOf[d.Name.Name] = types.ExprString(se.X)
 									pooledTypes[strings.TrimPrefix(d.Name.Name, "get")] = true
 								}
 							}
@@ -430,6 +432,40 @@ func analyseCtors(p *pkg, facts *Facts) {
 			}
 			return true
 		})
+	}
+	// Discard itself: every `case *T: xPool.Put(p)` must put a pooled type into the pool its getter reads
+	for _, f := range p.files {
+		for _, d := range f.Decls {
+			fd, ok := d.(*ast.FuncDecl)
+			if !ok || fd.Recv != nil || fd.Name.Name != "Discard" || fd.Body == nil {
+				continue
+			}
+			ast.Inspect(fd.Body, func(n ast.Node) bool {
+				c, ok := n.(*ast.CallExpr)
+				if !ok {
+					return true
+				}
+				se, ok := c.Fun.(*ast.SelectorExpr)
+				if !ok || se.Sel.Name != "Put" {
+					return true
+				}
+				cw := CWrite{File: p.relFile(c.Pos()), Line: p.line(c.Pos()), Func: "Discard", Lhs: types.ExprString(c)}
+				var cc *ast.CaseClause
+				for cur := p.parents[c]; cur != nil && cc == nil; cur = p.parents[cur] {
+					cc, _ = cur.(*ast.CaseClause)
+				}
+				if cc != nil && len(cc.List) == 1 {
+					if st, ok := cc.List[0].(*ast.StarExpr); ok {
+						if id, ok := st.X.(*ast.Ident); ok && pooledTypes[id.Name] && types.ExprString(se.X) == poolOf["get"+id.Name] {
+							cw.Fresh = true
+							cw.Lhs = "case *" + id.Name + ": " + cw.Lhs
+						}
+					}
+				}
+				facts.CWrites = append(facts.CWrites, cw)
+				return true
+			})
+		}
 	}
 	sort.Slice(facts.CWrites, func(i, j int) bool {
 		a, b := facts.CWrites[i], facts.CWrites[j]
@@ -996,6 +1032,11 @@ func (p *pkg) analyseSites(facts *Facts) {
 			}
 			for _, o := range vf.occs {
 				if o.kind == "escape" {
+					// `return x` ends the function: on that path the (non-deferred) Discard does not run
+					// afterwards, and a return that can run AFTER the call is reported as a use-after
+					if o.why == "returned" && !deferred {
+						continue
+					}
 					s.Escapes = append(s.Escapes, fmt.Sprintf("line %d: %s", p.line(o.id.Pos()), o.why))
 				}
 			}
@@ -1057,7 +1098,7 @@ func mentionsParser(t types.Type, seen map[types.Type]bool) bool {
 	case *types.Array:
 		return mentionsParser(t.Elem(), seen)
 	case *types.Map:
-		return mentionsParser(t.Elem(), seen) || mentionsParser(t.Key(), seen)
+		return mentionsParser(t.Elem(), seen) // a map KEYED by nodes (a cache) is not part of the tree
 	}
 	return false
 }
@@ -1374,6 +1415,14 @@ func main() {
 	}
 	if modPath == "" {
 		fatal("no module line in go.mod")
+	}
+	if *allow != "" {
+		if a, err := filepath.Abs(*allow); err == nil {
+			*allow = a
+		}
+	}
+	if a, err := filepath.Abs(*out); err == nil {
+		*out = a
 	}
 	if err := os.Chdir(repo); err != nil {
 		fatal("%v", err)
